@@ -478,7 +478,7 @@ func doStatus() {
 }
 
 func doLoginStart() {
-	n := run.Scale(60, 500)
+	n := run.Scale(60, 250)
 	for i := 0; i < n; i++ {
 		name := genString(16)
 		var key *fakeKey
@@ -500,7 +500,7 @@ func doLoginStart() {
 }
 
 func doEncryption() {
-	n := run.Scale(50, 400)
+	n := run.Scale(50, 200)
 	for i := 0; i < n; i++ {
 		sid := genString(20)
 		if rng.Chance(1, 2) {
@@ -536,7 +536,7 @@ func doEncryption() {
 }
 
 func doLoginSuccess() {
-	n := run.Scale(60, 500)
+	n := run.Scale(60, 250)
 	for i := 0; i < n; i++ {
 		id, sess := genUUID(), genUUID()
 		name := genString(16)
@@ -590,7 +590,7 @@ func doLoginPlugin() {
 func doDisconnect() {
 	run.Case("disconnect", "disc 767 0 _", encode(&packet.Disconnect{}, 767, proto.ClientBound, 0x1d))
 	run.Case("disconnect", "disc 767 1 _", encode(&packet.Disconnect{}, 767, proto.ClientBound, 0))
-	n := run.Scale(60, 500)
+	n := run.Scale(60, 200)
 	for i := 0; i < n; i++ {
 		c := genComp()
 		for _, p := range sampleProtos(4, []int{4, 47, 763, 764, 765, 766, 776}) {
@@ -632,7 +632,7 @@ func doDisconnect() {
 }
 
 func doKeepAliveTransfer() {
-	n := run.Scale(50, 400)
+	n := run.Scale(50, 200)
 	for i := 0; i < n; i++ {
 		id := genInt64()
 		if rng.Bool() {
@@ -673,7 +673,7 @@ func doPluginMessage() {
 			pmCase(p, rng.Bool(), ch, genBytes(64))
 		}
 	}
-	n := run.Scale(150, 1200)
+	n := run.Scale(150, 600)
 	for i := 0; i < n; i++ {
 		ch := genChannel()
 		var data []byte
@@ -837,7 +837,7 @@ func doPlayerInfo() {
 		}
 	}
 	// random subsets (all 8 actions), random order, sometimes duplicates, 0..3 entries
-	n := run.Scale(500, 5000)
+	n := run.Scale(500, 4000)
 	for i := 0; i < n; i++ {
 		p := hx.Pick(rng, protosFrom(761))
 		m := maxAction(p)
